@@ -24,7 +24,9 @@ from vf import S, Lst, parse_sx, dump_sx, unS, sx_opt
 LANGS = [('typescript', 'ts', [], {}), ('kotlin', 'kt', ['--java-package', 'com.example'], {'package': 'com.example'}),
          ('swift', 'swift', [], {}), ('scala', 'scala', ['--scala-package', 'com.example'], {'package': 'com.example'}),
          ('go', 'go', ['--go-package', 'p'], {'package': 'p'}), ('python', 'py', [], {})]
-WRAPPERS = ['mod a', 'mod b', 'mod deep', 'fn body', 'fn g', 'impl Holder']
+WRAPPERS = ['mod a', 'mod b', 'mod deep', 'fn body', 'fn g', 'impl Holder',
+            # blocks reached only through an expression of a function body (closure, match arm, let initialiser, if, loop, unsafe, bare block, call argument)
+            'fn-let h', 'fn-closure k', 'fn-match m', 'fn-if q', 'fn-loop l', 'fn-unsafe u', 'fn-block b', 'fn-arg r']
 DECOYS = ['#[typeshare]\npub union AnnotatedUnion { a: u32, b: f32 }\n',
           '#[typeshare]\nfn annotated_fn() {}\n',
           '#[typeshare]\npub static ANNOTATED_STATIC: u32 = 1;\n',
